@@ -73,7 +73,20 @@ ExpandMisc(h) ==
                   \cup { <<0, Cmp(o, C1(f, dC), IntL(k))>> : o \in {"eq", "gt"},
                            <<f, k>> \in {<<"year", 2020>>, <<"month", 2>>, <<"day", 29>>, <<"hour", 10>>, <<"minute", 59>>} }
                   \cup { <<1, Bool("and", HB, HB)>>, <<1, Bool("or", HB, HB)>>, <<1, Un("not", HB)>> }
-Expand(h) == CASE Profile = "logic" -> ExpandLogic(h) [] Profile = "arith" -> ExpandArith(h)
+ExpandFns(h) ==
+  CASE h = "B" -> { <<0, Cmp(o, HI, IntL(k))>> : o \in {"eq", "gt"}, k \in {1, 2020} }
+                  \cup { <<0, Cmp("lt", HT, T1)>>, <<0, Cmp("eq", C1("date", HT), Lit("Date", "2020-02-29"))>>,
+                         <<0, Cmp("ge", Call(Id0("now"), <<>>), HT)>>, <<0, C2("contains", HS, SL(<<97>>))>>,
+                         <<0, Cmp("eq", HS, SL(<<97, 98>>))>> }
+                  \cup { <<1, Bool("and", HB, HB)>>, <<1, Un("not", HB)>> }
+    [] h = "I" -> { <<0, nC>>, <<0, IntL(2)>> }
+                  \cup { <<1, C1(f, HT)>> : f \in {"year", "month", "day", "hour", "minute"} }
+                  \cup { <<1, C1(f, HI)>> : f \in {"round", "floor", "ceiling"} }
+                  \cup { <<1, C1("length", HS)>>, <<1, C2("indexof", HS, HS)>>, <<1, Bin("mul", HI, HI)>>, <<1, Bin("sub", HI, HI)>>, <<1, Un("neg", HI)>> }
+    [] h = "S" -> { <<0, sC>>, <<0, SL(<<97>>)>> }
+                  \cup { <<1, C2("concat", HS, HS)>>, <<1, C1("trim", HS)>>, <<1, C2("substring", HS, HI)>>, <<1, C1("toupper", HS)>> }
+    [] h = "T" -> { <<0, dC>>, <<0, T1>>, <<0, Call(Id0("now"), <<>>)>> }
+Expand(h) == CASE Profile = "logic" -> ExpandLogic(h) [] Profile = "fns" -> ExpandFns(h) [] Profile = "arith" -> ExpandArith(h)
                [] Profile = "strings" -> ExpandStrings(h) [] Profile = "misc" -> ExpandMisc(h)
 
 Init == t = HB /\ n = 0
